@@ -2,13 +2,16 @@ CLAIMED = True
 SPEC = {
     "id": "C20",
     "props": "PlzVerif/Props/C20.lean",
-    "extract": ["c20"],
+    "extract": ["c20", "c22"],   # c22: how FindAllBuildFiles (command-line expansion of //p/...) treats experimental dirs and the blacklist
     "harness": "c20",
     "driver": "Driver/C20.lean",
     "needs_plz": False,
     "level": "proof",
     "level_text": (
-        "Includes (command-line /... expansion, visibility, --exclude, isExperimental): exactness proved for all "
+        "Command line: `//p/...` is expanded by FindAllBuildFiles (a directory walk, not Includes); C20_cmdline_expansion_exact "
+        "ties the walk (C22's model, regenerated callback formulas) to Includes: a package is selected iff the pattern "
+        "includes it, it has a BUILD file and no directory from p down to it is plz-out/hidden/experimental (root-relative "
+        "whole path)/blacklisted. Includes (expandOriginalPseudoTarget, visibility, --exclude, isExperimental): exactness proved for all "
         "package strings against a component-wise specification (C20_includes_subtree_exact, _all_exact, "
         "_single_exact, _never_sibling, C20_experimental_exact). Matches and validateSandbox: completeness "
         "proved unconditionally; exactness proved conditionally on the regenerated facts saying the test is by "
@@ -23,6 +26,8 @@ SPEC = {
         "go/ast extractor harness/extract/c20 (ContainsAny sets, reserved suffixes, dispatch literals, validator calls per parser branch, `+ \"/\"` at each HasPrefix site, which method each call site uses)",
         "correspondence harness/cmd/c20 vs Driver/C20.lean: every string over {/ : . a b @ _ #} up to length 6 (thorough 7), contexts, fuzzed strings with metacharacters / NUL / invalid UTF-8, all small (pattern, package) pairs, generated package trees through Includes, Matches, isExperimental and validateSandbox",
         "modelled, not verified: Model/Label.lean transcribes ParseBuildLabelParts, parseBuildLabelSubrepo, String, validators, Parent, Includes, Matches, isExperimental, validateSandbox; Go byte strings as List Char (one byte = one Char)",
+        "command-line op `cl`: repositories materialised under $VERIF_SCRATCH, real plz.FindAllBuildFiles + the three lines of findOriginalTask that turn a BUILD file into a package (copied into the harness), vs LabelWalk.cmdlineSelect; oracle: Includes + documented exclusions",
+        "go/ast extractor harness/extract/c22 (grpF's): callback formulas of FindAllBuildFiles",
         "hooks: core.BuildLabel.IsExperimentalForVerif, asp.ValidateSandboxForVerif (thin wrappers, //go:build verif)",
     ],
     "assumptions": [
@@ -48,6 +53,13 @@ Dry-runs on scratch copies (VERIF_REPO=/var/tmp/mC20_<name> ./check C20 quick, i
  harmless           renamed idx->pos and swapped two independent assignments in ParseBuildLabelParts, swapped the two
                     disjuncts of Includes, renamed the loop variables of validateSandbox        exit 0, 32/32, 0 disagreements
  identity           no-op patch                                                                 exit 0
+Round-2 seed (FindAllBuildFiles: blacklist and experimental dirs merged into one loop with the blacklist's base-name match, so
+every directory whose LAST component equals an experimental dir's name is pruned): VERIF_REPO=/tmp/confirm/C20 ./check C20 quick
+                    exit 1: c22 facts unreadable (C20_facts_ok not discharged), 23 disagreements on `cl` ops, oracle VIOLATION
+                    cmdline-experimental-basename-match `cl - 6578706572696d656e74616c _ 7372632f65…` = //... with experimental
+                    dir "experimental" over {src/experimental, src/experimental/deep, experimental/x, src/lib, srcx} selects
+                    {src/lib, srcx}, documented {src/experimental, src/experimental/deep, src/lib, srcx}.  Missed before the
+                    `cl` op existed (C20 only exercised Includes/Matches in process).
 Fix phase (after fix: commits ca7c080 Matches by component, 7c14979 validateSandbox experimental dirs by component):
  reintro_matches    Matches `...` case back to raw strings.HasPrefix
                     exit 1: facts matchesSlash=false (36/38), VIOLATION matches-string-prefix with a failing `mat` op line
